@@ -294,3 +294,193 @@ mod __verif_kani_search {
         kani::cover!(rec.n == 3);
     }
 }
+
+// ==== C05 / C06: bounded check of the real find_date_time (table part; no leap seconds; no or fixed trailing rule) ====
+#[cfg(kani)]
+mod __verif_kani_search_small {
+    use super::*;
+    use crate::timezone::{LocalTimeType, Transition, TransitionRule};
+
+    const CAP: usize = 4;
+
+    /// recorder list: by the parametricity argument of C17 the pushed sequence is the result list of both real list types
+    struct Recorder {
+        n: usize,
+        kinds: [Option<FoundDateTimeKind>; CAP],
+    }
+
+    impl DateTimeList for Recorder {
+        fn push(&mut self, found_date_time: FoundDateTimeKind) {
+            if self.n < CAP {
+                self.kinds[self.n] = Some(found_date_time);
+            }
+            self.n += 1;
+        }
+    }
+
+    /// stand-in for datetime::unix_time (proved by Verus to be the calendar second count): the search only uses the value,
+    /// so any cheap injective-enough function of the fields will do; this keeps 64-bit division cascades out of CBMC
+    fn stub_unix_time(year: i32, month: u8, month_day: u8, hour: u8, minute: u8, second: u8) -> i64 {
+        ((year as i64) << 26) | ((month as i64) << 22) | ((month_day as i64) << 17) | ((hour as i64) << 12) | ((minute as i64) << 6) | (second as i64)
+    }
+
+    /// stand-in for DateTime::from_timespec_and_local by its Verus-proved contract (fields are irrelevant to the search)
+    fn stub_from_timespec_and_local(unix_time: i64, nanoseconds: u32, local_time_type: LocalTimeType) -> Result<DateTime, TzError> {
+        match unix_time.checked_add(local_time_type.ut_offset() as i64) {
+            Some(v) if -67768100567971200 <= v && v <= 67767976233532799 => {
+                Ok(DateTime::from_timespec_and_local_unchecked_for_verif(unix_time, nanoseconds, (0, 1, 1, 0, 0, 0), local_time_type))
+            }
+            _ => Err(TzError::OutOfRange),
+        }
+    }
+
+    fn stub_check_date_time_inputs(_year: i32, _month: u8, _month_day: u8, _hour: u8, _minute: u8, _second: u8, _nanoseconds: u32) -> Result<(), crate::error::datetime::DateTimeError> {
+        Ok(())
+    }
+
+    const NT: usize = 2;
+
+    /// the forward lookup of C03 for a table without leap seconds (count = UTC), index of the type or None
+    fn type_at(trans: &[Transition], ntrans: usize, rule_type: Option<usize>, u: i64) -> Option<usize> {
+        if u >= trans[ntrans - 1].unix_leap_time() {
+            return rule_type;
+        }
+        let mut idx = 0;
+        let mut i = 0;
+        while i < NT {
+            if i < ntrans && trans[i].unix_leap_time() <= u {
+                idx = trans[i].local_time_type_index();
+            }
+            i += 1;
+        }
+        Some(idx)
+    }
+
+    /// BOUNDED: 1..=2 transitions with arbitrary strictly increasing i64 times and arbitrary type indices into 2 types with
+    /// arbitrary i32 offsets (equal offsets allowed), no leap seconds, trailing rule none or Fixed(last type).
+    #[kani::proof]
+    #[kani::unwind(6)]
+    #[kani::stub(crate::datetime::unix_time, stub_unix_time)]
+    #[kani::stub(crate::datetime::DateTime::from_timespec_and_local, stub_from_timespec_and_local)]
+    #[kani::stub(crate::datetime::check_date_time_inputs, stub_check_date_time_inputs)]
+    fn search_table_bounded_small() {
+        let offs: [i32; 2] = [kani::any(), kani::any()];
+        kani::assume(offs[0] != i32::MIN && offs[1] != i32::MIN);
+        let types = [
+            LocalTimeType::with_ut_offset(offs[0]).unwrap(),
+            LocalTimeType::with_ut_offset(offs[1]).unwrap(),
+        ];
+        let ntrans: usize = kani::any();
+        kani::assume(1 <= ntrans && ntrans <= NT);
+        let t: [i64; NT] = [kani::any(), kani::any()];
+        let ix: [usize; NT] = [kani::any(), kani::any()];
+        kani::assume(ix[0] < 2 && ix[1] < 2);
+        kani::assume(t[0] < t[1]);
+        let trans_all = [Transition::new(t[0], ix[0]), Transition::new(t[1], ix[1])];
+        let trans = &trans_all[..ntrans];
+        let with_rule: bool = kani::any();
+        let last_ix = ix[ntrans - 1];
+        let rule = if with_rule { Some(TransitionRule::Fixed(types[last_ix])) } else { None };
+        let tz = TimeZoneRef::new_unchecked_for_verif(trans, &types, &[], &rule);
+
+        let (year, month, month_day, hour, minute, second): (i32, u8, u8, u8, u8, u8) = (kani::any(), kani::any(), kani::any(), kani::any(), kani::any(), kani::any());
+        kani::assume(month <= 12 && month_day <= 31 && hour <= 23 && minute <= 59 && second <= 60);
+        let l = stub_unix_time(year, month, month_day, hour, minute, second) as i128;
+
+        let mut rec = Recorder { n: 0, kinds: [None; CAP] };
+        let r = find_date_time(&mut rec, year, month, month_day, hour, minute, second, 0, tz);
+        if r.is_err() {
+            return;
+        }
+        assert!(rec.n <= CAP);
+        let rule_type = if with_rule { Some(last_ix) } else { None };
+
+        // --- C05 soundness: every Normal entry shows the searched local time under the type the lookup reports there;
+        // --- C06: every Skipped entry sits at a forward transition whose gap contains the searched time; order ascending
+        let mut prev_instant: i128 = i128::MIN;
+        let mut k = 0;
+        while k < CAP {
+            if k < rec.n {
+                match rec.kinds[k] {
+                    Some(FoundDateTimeKind::Normal(dt)) => {
+                        let u = dt.unix_time();
+                        let ti = type_at(&trans_all, ntrans, rule_type, u);
+                        assert!(ti.is_some());
+                        let lt = types[ti.unwrap()];
+                        assert!(lt.ut_offset() == dt.local_time_type().ut_offset());
+                        assert!(u as i128 + lt.ut_offset() as i128 == l);
+                        assert!(prev_instant <= u as i128);
+                        prev_instant = u as i128;
+                    }
+                    Some(FoundDateTimeKind::Skipped { before_transition, after_transition }) => {
+                        let u = before_transition.unix_time();
+                        assert!(after_transition.unix_time() == u);
+                        let a = before_transition.local_time_type().ut_offset() as i128;
+                        let b = after_transition.local_time_type().ut_offset() as i128;
+                        // the gap [T + a, T + b) contains the searched time
+                        assert!(u as i128 + a <= l && l < u as i128 + b);
+                        // and T is a transition of the table, with those two types around it
+                        let mut hit = false;
+                        let mut i = 0;
+                        while i < NT {
+                            if i < ntrans && trans_all[i].unix_leap_time() == u {
+                                let before_ix = if i == 0 { 0 } else { ix[i - 1] };
+                                hit = types[before_ix].ut_offset() as i128 == a && types[ix[i]].ut_offset() as i128 == b && (i + 1 < ntrans || with_rule);
+                            }
+                            i += 1;
+                        }
+                        assert!(hit);
+                        assert!(prev_instant <= u as i128);
+                        prev_instant = u as i128;
+                    }
+                    None => assert!(false),
+                }
+            }
+            k += 1;
+        }
+
+        // --- C05 completeness: any instant whose clock shows the searched time is among the Normal entries
+        let u: i64 = kani::any();
+        if let Some(ti) = type_at(&trans_all, ntrans, rule_type, u) {
+            if u as i128 + types[ti].ut_offset() as i128 == l {
+                let mut found = 0;
+                let mut k = 0;
+                while k < CAP {
+                    if k < rec.n {
+                        if let Some(FoundDateTimeKind::Normal(dt)) = rec.kinds[k] {
+                            if dt.unix_time() == u {
+                                found += 1;
+                            }
+                        }
+                    }
+                    k += 1;
+                }
+                assert!(found == 1);
+            }
+        }
+
+        // --- C06 completeness: a forward transition whose gap contains the searched time is reported
+        let j: usize = kani::any();
+        kani::assume(j < ntrans && (j + 1 < ntrans || with_rule));
+        let a = types[if j == 0 { 0 } else { ix[j - 1] }].ut_offset() as i128;
+        let b = types[ix[j]].ut_offset() as i128;
+        let tj = t[j] as i128;
+        if tj + a <= l && l < tj + b {
+            let mut found = 0;
+            let mut k = 0;
+            while k < CAP {
+                if k < rec.n {
+                    if let Some(FoundDateTimeKind::Skipped { before_transition, .. }) = rec.kinds[k] {
+                        if before_transition.unix_time() as i128 == tj {
+                            found += 1;
+                        }
+                    }
+                }
+                k += 1;
+            }
+            assert!(found == 1);
+        }
+        kani::cover!(rec.n == 0);
+        kani::cover!(rec.n == 2);
+    }
+}
